@@ -273,6 +273,63 @@ def tainted_attrs(ctx: Ctx) -> Set[str]:
     return out
 
 
+def _length_guarded(prog, fn: FuncInfo, sub: ast.Subscript, k: int) -> bool:
+    """x[k] lies inside ``if len(x) > k`` (any spelling), or after ``if len(x) <= k: return / raise / continue``."""
+    need = k + 1 if k >= 0 else -k
+    target = norm(sub.value)
+
+    def min_len(test: ast.expr, truth: bool) -> int:
+        """the length of x this test outcome guarantees (0 = nothing)"""
+        if isinstance(test, ast.UnaryOp) and isinstance(test.op, ast.Not):
+            return min_len(test.operand, not truth)
+        if isinstance(test, ast.BoolOp):
+            vals = [min_len(v, truth) for v in test.values]
+            conj = isinstance(test.op, ast.And) == truth      # all operands hold
+            return max(vals) if conj else min(vals)
+        if isinstance(test, ast.Compare) and len(test.ops) == 1:
+            l, op, r = test.left, test.ops[0], test.comparators[0]
+            flip = {ast.Lt: ast.Gt, ast.LtE: ast.GtE, ast.Gt: ast.Lt, ast.GtE: ast.LtE, ast.Eq: ast.Eq, ast.NotEq: ast.NotEq}
+            if isinstance(r, ast.Call) and norm(r.func) == "len" and type(op) in flip:
+                l, op, r = r, flip[type(op)](), l
+            if isinstance(l, ast.Call) and norm(l.func) == "len" and len(l.args) == 1 and norm(l.args[0]) == target:
+                try:
+                    c = prog.consteval(r, fn.module)
+                except Exception:
+                    return 0
+                if not isinstance(c, int):
+                    return 0
+                t = type(op)
+                if not truth:
+                    t = {ast.Lt: ast.GtE, ast.LtE: ast.Gt, ast.Gt: ast.LtE, ast.GtE: ast.Lt, ast.Eq: ast.NotEq, ast.NotEq: ast.Eq}.get(t)
+                return {ast.GtE: c, ast.Gt: c + 1, ast.Eq: c}.get(t, 0)
+        return 0
+
+    def search(stmts, guaranteed: int) -> Optional[bool]:
+        g = guaranteed
+        for st in stmts:
+            if any(x is sub for x in ast.walk(st)):
+                if isinstance(st, ast.If):
+                    if any(x is sub for x in ast.walk(st.test)):
+                        return g >= need
+                    for body, truth in ((st.body, True), (st.orelse, False)):
+                        if any(x is sub for b in body for x in ast.walk(b)):
+                            return search(body, max(g, min_len(st.test, truth)))
+                for fld in ("body", "orelse", "finalbody"):
+                    blk = getattr(st, fld, None)
+                    if isinstance(blk, list) and any(x is sub for b in blk for x in ast.walk(b) if isinstance(b, ast.AST)):
+                        return search(blk, g)
+                for h in getattr(st, "handlers", []):
+                    if any(x is sub for x in ast.walk(h)):
+                        return search(h.body, g)
+                return g >= need
+            # an early exit narrows what follows
+            if isinstance(st, ast.If) and st.body and isinstance(st.body[-1], (ast.Return, ast.Raise, ast.Continue, ast.Break)) and not st.orelse:
+                g = max(g, min_len(st.test, False))
+        return None
+    r = search(fn.node.body if not fn.is_lambda else [], 0)
+    return bool(r)
+
+
 def net_prim(ctx: Ctx):
     prog = ctx.prog
     cancelled = prog.ext_class("asyncio.CancelledError")
@@ -282,6 +339,7 @@ def net_prim(ctx: Ctx):
     futexc = future_exceptions(ctx)
     tattrs = tainted_attrs(ctx)
     typeerror = prog.ext_class("builtins.TypeError")
+    indexerror = prog.ext_class("builtins.IndexError")
     from ..calls import arity_error
 
     def prim(node, fn, res):
@@ -314,6 +372,18 @@ def net_prim(ctx: Ctx):
                 names = {n.attr for n in ast.walk(src) if isinstance(n, ast.Attribute) and isinstance(n.value, ast.Name) and n.value.id == "self"}
                 if names & tattrs:
                     out.append(NetValueError)
+            # text decoded from a response has whatever length the peer chose: indexing it at a fixed position raises
+            # IndexError unless a test of its length encloses (or an early exit precedes) the access
+            for sub in [x for a in list(node.args) + [k.value for k in node.keywords] for x in ast.walk(a) if isinstance(x, ast.Subscript)]:
+                if isinstance(sub.slice, ast.Slice) or not (isinstance(sub.value, ast.Attribute) and isinstance(sub.value.value, ast.Name)
+                                                             and sub.value.value.id == "self" and sub.value.attr in tattrs):
+                    continue
+                try:
+                    k = prog.consteval(sub.slice, fn.module)
+                except Exception:
+                    continue
+                if isinstance(k, int) and not _length_guarded(prog, fn, sub, k):
+                    out.append(indexerror)
         return out
     return prim
 
